@@ -251,6 +251,11 @@
 ; the first n arguments passed every check that returnTypeForValues makes before the Type callback
 (define-fun arg_ok ((p function.Parameter) (v cty.Value)) Bool
   (and (not (arg_offends p v)) (=> (is_dyn_ty (cty.Value.ty v)) (function.Parameter.AllowDynamicType p))))
+; what a function's Type callback may rely on for argument j: the checks above plus the deep unmarking
+; that returnTypeForValues applies to arguments of parameters without AllowMarked (read from the code of
+; returnTypeForValues; its contract proves the type / null part only)
+(define-fun type_arg_ok ((p function.Parameter) (v cty.Value)) Bool
+  (and (arg_ok p v) (=> (not (function.Parameter.AllowMarked p)) (not (deep_marked v)))))
 (define-fun args_checked ((sp function.Spec) (args Slice) (n Int)) Bool
   (forall ((j Int)) (! (=> (and (trig j) (<= 0 j) (< j n)) (arg_ok (sp_param_for sp j) (vals_rel args j))) :pattern ((trig j)))))
 (define-fun arity_ok ((sp function.Spec) (n Int)) Bool
@@ -595,8 +600,16 @@
 ; ghost: "both callbacks of this transformer return their argument unchanged and no error" (an identity
 ; transformer); the interface contracts of Transformer.Enter / Exit say what that means
 (declare-fun tr_identity (Any) Bool)
-; number of elements as reported by LengthInt (uninterpreted; LengthInt is not under contract yet)
-(declare-fun len_int (cty.Value) Int)
+; number of members of a set payload as reported by set.Set.Length (uninterpreted observation of a frozen
+; set; the generic set package is not under contract)
+(declare-fun vset_sz (set.Set<Any>) Int)
+; number of elements as reported by LengthInt (of the unmarked value)
+(define-fun len_int ((v cty.Value)) Int
+  (ite (is_tuple_ty (vty v)) (tuple_len (vty v))
+  (ite (is_obj_ty (vty v)) (MapC<String~cty.Type>.card (obj_atys (vty v)))
+  (ite (is_list_ty (vty v)) (Slice.len (pl_seq v))
+  (ite (is_map_ty (vty v)) (MapC<String~Any>.card (pl_mapc v))
+       (vset_sz (unbox<set.Set<Any>> (inner_v v))))))))
 ; math/big.Int: the value as a mathematical integer (uninterpreted observation)
 (declare-fun bi.val (math/big.Int) Int)
 (define-fun r_trunc ((r Real)) Int (ite (>= r 0.0) (to_int r) (- (to_int (- r)))))
